@@ -14,7 +14,7 @@ var runCounter int
 func newVC(prog *Program, fi *FuncInfo) *VC {
 	runCounter++
 	return &VC{prog: prog, fn: fi, heap0: map[string]*Term{}, heapSorts: map[string]*Sort{}, runTag: fmt.Sprintf("r%d", runCounter),
-		boxed: map[types.Object]bool{}, siteOrd: map[ast.Node]string{}, siteOrd2: map[ast.Node]string{}, loopPath: map[ast.Stmt]string{}, closures: map[types.Object]*ast.FuncLit{}, analyzed: map[ast.Node]bool{}, ghostTypes: map[string]types.Type{}, usedSites: map[string]bool{}, heapGoTypes: map[string]types.Type{}, mapValArr: map[string]bool{}, epochAlloc: map[string]*Term{}}
+		boxed: map[types.Object]bool{}, siteOrd: map[ast.Node]string{}, siteOrd2: map[ast.Node]string{}, loopPath: map[ast.Stmt]string{}, closures: map[types.Object]*ast.FuncLit{}, analyzed: map[ast.Node]bool{}, ghostTypes: map[string]types.Type{}, usedSites: map[string]bool{}, gaddrSeen: map[string]bool{}, heapGoTypes: map[string]types.Type{}, mapValArr: map[string]bool{}, epochAlloc: map[string]*Term{}}
 }
 
 // analyzeBody computes boxed variables and site numbering for a function body.
